@@ -70,6 +70,14 @@ def build_object(rng, kind, big=False):
             e = rng.choice(es)
             k = key_from_lib(kind, e)
             h.set_weight(*lib_args(kind, k), rng.choice([0, 0.0, 2**53 + 1, -3, 10**20]))
+    if rng.random() < 0.15:
+        # user metadata that happens to use the words the text format reserves, with values that disagree with the real
+        # weight / time / layer: the round trip must bring back the real ones (the metadata is compared modulo these keys)
+        from ..observe import lib_args, key_from_lib
+        for e in h.get_edges():
+            k = key_from_lib(kind, e)
+            if KEYS[kind].size(k) > 0 and rng.random() < 0.5:
+                h.set_attr_to_edge_metadata(*lib_args(kind, k), rng.choice(RESERVED), rng.choice([99, "zz", 7, 0]))
     if rng.random() < 0.5:  # isolated node with metadata
         free = [n for n in cfg.labels if n not in h.get_nodes()]
         if free:
